@@ -13,7 +13,7 @@ import numpy as np
 import z3
 
 from vlib import env, gen
-from vlib.zrun import wrapper_exc, explore_and_prove, eq_term, concretize, pyrepr
+from vlib.zrun import twin_verdict, wrapper_exc, explore_and_prove, eq_term, concretize, pyrepr
 from vlib.zsym import Real, SymNum, SymTypeError, lift, model_value, _q
 
 META = {
@@ -131,7 +131,7 @@ def task_sane(systems):
                                                                         x=pyrepr(dict(zip(keys, concretize(m, x)))))))
         if tw is None:
             ot = explore_and_prove(fn, assum, lambda p: goal(p, True), max_paths=60000, deadline_s=60, max_fail=1)
-            tw = "violated" if ot.failed else "passed"
+            tw = twin_verdict(ot)
     res["twin"] = tw
     res["sample"] = {"system": systems[0], "x": "symbolic reals", "c0": "symbolic >= 0"}
     res["status"] = "violation" if res["violations"] else ("inconclusive" if res["inconclusive"] else "discharged")
@@ -261,7 +261,7 @@ def task_precip(systems):
                                                                           K=pyrepr(concretize(m, Ks)), p0=pyrepr(concretize(m, pvec[:n])))))
         if tw is None:
             ot = explore_and_prove(fn, assum, lambda p: goal(p, True), max_paths=5000, deadline_s=60, max_fail=1)
-            tw = "violated" if ot.failed else "passed"
+            tw = twin_verdict(ot)
     res["twin"] = tw
     res["sample"] = {"system": systems[0], "x": "symbolic >= 0", "K": "symbolic > 0"}
     res["status"] = "violation" if res["violations"] else ("inconclusive" if res["inconclusive"] else "discharged")
